@@ -103,3 +103,11 @@ def run(out, sc, tier, seed):
                 (sc.work / pth.name).write_text(pth.read_text())
             validate(out, sc, "TraceUrl", "C19", [sc.work / pth.name for pth in sw2], "alloc-sweeps-asan")
     run_harvest(out, sc, "C19")
+    # the cache API is a public entry point too: TLC-generated sequences of cached calls, cache_clear(), cache_configure() with
+    # every size class (0, small, None) and cache_info() after every call -- none may raise anything (C19.no_exception)
+    from .c08 import host_caches
+    host_caches(out, sc, tier, seed, prop="C19", r1=False)
+    # ... and no other exception class may leak in a thread either: a reduced run of the C20 executions (free-running stress,
+    # scheduled and systematic single-pre-emption schedules), every exception class observed in any step judged by TraceMem
+    from .c20 import thread_executions
+    thread_executions(out, sc, tier, seed, "C19", scale=0.5)
